@@ -1,6 +1,7 @@
 (* C16: witness for the open known finding "a peer message equal to the
    heartbeat payload is swallowed" (candidate 13b; in-band keep-alive, by design). *)
-From CJ Require Import Common.Base C16.Model C16.Props.
+From Coq Require Import Lia.
+From CJ Require Import Common.Base C16.Model C16.ModelMax C16.ProofsMax C16.Props.
 
 Definition default_heartbeat : bytes := bytes_of_string "6v3jyM521GkBo1lsMyVLcRyzdZ7FKEM3".
 
@@ -27,3 +28,24 @@ Proof.
   rewrite Hr in Hk. vm_compute in Hk. discriminate.
 Qed.
 Print Assumptions C16_server_read_concat_refuted.
+
+(* refuted variant of (viii): receive buffers one byte short of the writer's limit *)
+Theorem C16_rbuf_one_short_refuted :
+  forall wmax eos, (0 < wmax)%nat -> ~ (forall ms sizes, pair_lossless wmax (wmax - 1) eos ms sizes).
+Proof. exact one_short_refuted. Qed.
+Print Assumptions C16_rbuf_one_short_refuted.
+
+(* the instance "association limit 65536, buffers of 65535" *)
+Theorem C16_rbuf_65535_refuted :
+  forall eos, ~ (forall ms sizes, pair_lossless (N.to_nat 65536) (N.to_nat 65535) eos ms sizes).
+Proof. intros eos A. apply (lossless_iff_rbuf_covers_wmax _ _ eos) in A. lia. Qed.
+Print Assumptions C16_rbuf_65535_refuted.
+
+Example ex_one_short_run :
+  pair_reads 4 3 E_EOS [[1; 2]; [3; 4; 5; 6]; [7]] [1; 1; 1; 1]%nat =
+  ([([1], None); ([2], None); ([], Some E_SHORT); ([7], None)], mkR [7] 1 None, []).
+Proof. vm_compute. reflexivity. Qed.
+Example ex_covering_run :
+  fst (fst (pair_reads 4 4 E_EOS [[1; 2]; [3; 4; 5; 6]; [9; 9; 9; 9; 9]; [7]] [1; 5; 3; 2; 9]%nat)) =
+  [([1], None); ([2], None); ([3; 4; 5], None); ([6], None); ([7], None)].
+Proof. vm_compute. reflexivity. Qed.
